@@ -69,6 +69,11 @@ def cases(tier, rng):
         if not name.startswith('blake'):
             for j in range(3 if tier == 'quick' else 20):
                 yield {'k': 'no-initstate', 'h': name, 'j': j}
+            B, w = info(name)
+            for top in ((32, 64) if w == 64 else (32,)):
+                for back in (3, 2, 1, 0, -1):             # blocks before / after the point where the bit counter needs another word
+                    for tail in (0, 1, B - 1):
+                        yield {'k': 'long-stream', 'h': name, 'preset': (1 << top) - back * 8 * B, 'np': 1 + (back + tail) % 3, 'tail': tail}
     for n in range(0, 25 if tier == 'thorough' else 17):
         yield {'k': 'nil-3pieces', 'n': n}
     for j in range(20 if tier == 'quick' else 200):
@@ -78,14 +83,17 @@ def cases(tier, rng):
     for j in range(40 if tier == 'quick' else 600):
         yield {'k': 'nil-multi', 'n': [70, 100, 256, 300, 1000][j % 5], 'ncuts': 2 + j % 4}
 
-def piecewise(h, name, pieces, final):
-    """returns (digest, [bitcnt after each non-final piece])"""
+def piecewise(h, name, pieces, final, flag=True, preset=None):
+    """returns (digest, [bitcnt after each non-final piece]); `flag` is the truthy value that marks the final piece,
+    `preset` a bit counter standing for a long stream already fed"""
     h.initstate()
+    if preset is not None:
+        h.padmethod.bitcnt = preset
     cnts = []
     for p in pieces:
         h.update(p)
         cnts.append(h.padmethod.bitcnt)
-    return h.update(final, padding=True), cnts
+    return h.update(final, padding=flag), cnts
 
 def run(case, ctx, rng):
     k = case['k']
@@ -107,7 +115,9 @@ def run(case, ctx, rng):
         det = dict(h=name, cuts=cuts, tail=tail, pat=case.get('pat'))
         one = call(make(name), M)
         ext = external(name, M)
-        got = call(piecewise, make(name), name, pieces, final)
+        flag = [True, 1, 'yes', 2][(sum(cuts) + tail + len(cuts)) % 4] if k == 'cuts' else True          # any truthy value closes the stream
+        det['final_flag'] = repr(flag)
+        got = call(piecewise, make(name), name, pieces, final, flag)
         if is_exc(got):
             ctx.eq('piecewise==oneshot', got, one, **det)
             ctx.eq('piecewise==reference', got, ext, **det)
@@ -120,6 +130,27 @@ def run(case, ctx, rng):
             if pieces:
                 ctx.eq('bitcnt-after-piece', got[1], want, **det)
         ctx.eq('oneshot==reference', one, ext, **det)
+    elif k == 'long-stream':
+        # a stream whose length needs more than one word of the length field: the counter is preset (as if that many bits had been
+        # fed), whole-block pieces follow, then the final piece; reference = same compressions, total length in the length field
+        name = case['h']; a = mdsha.ALGS[name]
+        B, w = info(name); P, npieces, tail = case['preset'], case['np'], case['tail']
+        ctx.cls((name, 'long-stream', P.bit_length(), (P >> 3) % 5, npieces, tail))
+        pieces = [rng.randbytes(B * (1 + i % 2)) for i in range(npieces)]; final = rng.randbytes(tail)
+        got = call(piecewise, make(name), name, pieces, final, True, P)
+        H = list(a['iv']); fed = 0
+        for p in pieces:
+            for i in range(0, len(p), B):
+                H = a['comp'](H, p[i:i + B])
+            fed += 8 * len(p)
+        want = mdsha.out(name, mdsha._finish(a['endian'], a['w'], a['comp'], H, final, 8 * tail, P + fed + 8 * tail))
+        det = dict(h=name, preset=hex(P), pieces=[len(p) for p in pieces], tail=tail)
+        ctx.eq('piecewise==reference', got if is_exc(got) else got[0], want, **det)
+        if not is_exc(got):
+            acc, wantc = P, []
+            for p in pieces:
+                acc += 8 * len(p); wantc.append(acc)
+            ctx.eq('bitcnt-after-piece', got[1], wantc, **det)
     elif k == 'interleaved':
         # history across objects: two streams fed alternately, a new object constructed and one-shot calls made mid-stream
         name, other = case['h'], case['other']
